@@ -295,10 +295,25 @@ func c16JudgeAmt(c *mon.Ctx, in *c16Amt) {
 		}
 		idOK = bytes.Equal(u.TxID, c16TxID) && u.Vout == 7
 	}
+	// Part of the destinations were used before (a refresh loop decoding into
+	// the objects it already holds); the used UTXOs share one txid slice, as
+	// the outputs of one parent transaction naturally do. Nothing of the old
+	// content may survive and siblings must not influence each other.
+	dirty := v%2 == 0 || v%1000 == 1
+	sharedID := bytes.Repeat([]byte{0xaa}, 32)
+	usedUTXO := func(k uint32) *bt.UTXO {
+		return &bt.UTXO{TxID: sharedID, Vout: 90 + k, LockingScript: bscript.NewFromBytes([]byte{0x52, 0x53, 0x54}), Satoshis: 4242 + uint64(k)}
+	}
+	if dirty {
+		c.Count("dirty-destination:" + w)
+	}
 	switch w {
 	case "output.NodeJSON", "Output":
 		o := &bt.Output{Satoshis: v, LockingScript: script}
 		out := &bt.Output{}
+		if dirty {
+			out = &bt.Output{Satoshis: 4242, LockingScript: bscript.NewFromBytes([]byte{0x52, 0x53, 0x54})}
+		}
 		var src, dst any = o, out
 		if w == "output.NodeJSON" {
 			src, dst = o.NodeJSON(), out.NodeJSON()
@@ -313,6 +328,9 @@ func c16JudgeAmt(c *mon.Ctx, in *c16Amt) {
 	case "utxo.NodeJSON", "UTXO":
 		u := utxo()
 		out := &bt.UTXO{}
+		if dirty {
+			out = usedUTXO(0)
+		}
 		var src, dst any = u, out
 		if w == "utxo.NodeJSON" {
 			src, dst = u.NodeJSON(), out.NodeJSON()
@@ -322,9 +340,13 @@ func c16JudgeAmt(c *mon.Ctx, in *c16Amt) {
 		}
 		fromUTXO(out)
 	case "UTXOs.NodeJSON", "UTXOs":
-		second := &bt.UTXO{TxID: append([]byte{}, c16TxID...), Vout: 8, LockingScript: script, Satoshis: 100_000_000}
+		secondID := bytes.Repeat([]byte{0x22}, 32)
+		second := &bt.UTXO{TxID: append([]byte{}, secondID...), Vout: 8, LockingScript: script, Satoshis: 100_000_000}
 		list := bt.UTXOs{utxo(), second}
 		var out bt.UTXOs
+		if dirty {
+			out = bt.UTXOs{usedUTXO(0), usedUTXO(1), usedUTXO(2)}
+		}
 		var src, dst any = list, &out
 		if w == "UTXOs.NodeJSON" {
 			src, dst = list.NodeJSON(), out.NodeJSON()
@@ -337,6 +359,9 @@ func c16JudgeAmt(c *mon.Ctx, in *c16Amt) {
 			return
 		}
 		fromUTXO(out[0])
+		if !bytes.Equal(out[1].TxID, secondID) || out[1].Vout != 8 {
+			idOK = false
+		}
 		if out[1].Satoshis != 100_000_000 {
 			c16Viol(c, "C16:amount-changed:"+w, func() string {
 				return fmt.Sprintf("%s: second element 100000000 satoshis came back as %d (json %s)", w, out[1].Satoshis, js)
@@ -606,8 +631,15 @@ func c16JudgeTx(c *mon.Ctx, in *c16Tx) {
 		us = append(us, &bt.UTXO{TxID: append([]byte{}, i.TxID...), Vout: i.Vout, Satoshis: i.PrevSats, LockingScript: bscript.NewFromBytes(append([]byte{}, i.PrevScript...))})
 	}
 	if len(us) > 0 {
-		for _, w := range []string{"UTXOs", "UTXOs.NodeJSON"} {
+		for wi, w := range []string{"UTXOs", "UTXOs.NodeJSON"} {
 			var out bt.UTXOs
+			if (len(us)+wi)%2 == 0 { // a used destination: one element more than needed, all sharing one txid slice
+				shared := bytes.Repeat([]byte{0xaa}, 32)
+				for k := 0; k <= len(us); k++ {
+					out = append(out, &bt.UTXO{TxID: shared, Vout: uint32(90 + k), LockingScript: bscript.NewFromBytes([]byte{0x52, 0x53, 0x54}), Satoshis: uint64(4242 + k)})
+				}
+				c.Count("dirty-destination:tx-derived-" + w)
+			}
 			var src, dst any = us, &out
 			if w == "UTXOs.NodeJSON" {
 				src, dst = us.NodeJSON(), out.NodeJSON()
